@@ -2,6 +2,7 @@ package htsim
 
 import (
 	"bytes"
+	"encoding/json"
 	"fmt"
 	"os"
 	"sort"
@@ -103,6 +104,18 @@ func buildHostileScenario(r *Rng, idx int, maxConns int, endings []string) *Scen
 		cfg.WriteString(s.config(fmt.Sprintf("svc%d", si)))
 		nc := r.Range(1, maxConns)
 		for c := 0; c < nc; c++ {
+			if (s.Key == "ssh-simulator" || s.Key == "ssh-auth") && r.Chance(0.65) {
+				// a real ssh client: everything behind the key exchange is only reachable this way
+				sp := genSSHSession(r)
+				ej, _ := json.Marshal(sp)
+				sc.Actors = append(sc.Actors, Actor{Kind: "sshsess", Src: clientAddr(actor), Dst: fmt.Sprintf("%s:%d", sensorIP, s.Port), Svc: s.Key, Ops: []Op{{K: "sshsess", Exp: ej}}})
+				actor++
+				classes = append(classes, "ssh-session")
+				if sp.End != "close" {
+					faults = append(faults, map[string]string{"drop": "reset", "idle": "silence"}[sp.End])
+				}
+				continue
+			}
 			msgs, class := hostileDialogue(s, r)
 			classes = append(classes, class)
 			a := Actor{Kind: "tcp", Src: clientAddr(actor), Dst: fmt.Sprintf("%s:%d", sensorIP, s.Port), Svc: s.Key}
@@ -317,6 +330,11 @@ func runHostile(t *testing.T, sc *Scenario, res *Result, afterBoot func(w *World
 		}
 		if afterBoot != nil {
 			afterBoot(w)
+		}
+		w.Custom = func(w *World, ai int, op Op) {
+			if op.K == "sshsess" {
+				sshSessionOp(w, ai, op)
+			}
 		}
 		w.Play()
 		if w.Abort != "" {
